@@ -210,7 +210,11 @@ pub const H_HIGH: u8 = 2;
 pub const H_SAMEBIN: u8 = 3;
 pub const H_MIX: u8 = 4;
 pub const H_AHASH: u8 = 5;
-pub const HASHER_NAMES: [&str; 6] = ["identity", "zero", "highbit", "samebin", "mix", "ahash"];
+/// every key hashes to all-ones: the bin always moves to the high half when the table doubles
+pub const H_ONES: u8 = 6;
+/// different hashes, same bin, low 32 bits all ones
+pub const H_HIGHONES: u8 = 7;
+pub const HASHER_NAMES: [&str; 8] = ["identity", "zero", "highbit", "samebin", "mix", "ahash", "ones", "highones"];
 
 #[derive(Clone, Copy, Default, Debug)]
 pub struct ModeBuild<const M: u8>;
@@ -227,6 +231,8 @@ pub fn mode_hash(m: u8, k: u64) -> u64 {
         H_ZERO => 0,
         H_HIGH => k << 32,
         H_SAMEBIN => k.wrapping_mul(64),
+        H_ONES => u64::MAX,
+        H_HIGHONES => (k << 32) | 0xFFFF_FFFF,
         _ => {
             let mut z = k.wrapping_add(0x9E3779B97F4A7C15);
             z = (z ^ (z >> 30)).wrapping_mul(0xBF58476D1CE4E5B9);
@@ -275,6 +281,14 @@ macro_rules! with_hasher {
             }
             4 => {
                 type $S = $crate::types::ModeBuild<4>;
+                $body
+            }
+            6 => {
+                type $S = $crate::types::ModeBuild<6>;
+                $body
+            }
+            7 => {
+                type $S = $crate::types::ModeBuild<7>;
                 $body
             }
             _ => {
